@@ -160,3 +160,39 @@ Proof.
 Qed.
 Lemma zero_mat_colsums {R : StarRing} n : zero_colsums n (@zero_mat R).
 Proof. intros j Hj. unfold colsum, zero_mat. apply sum_0. Qed.
+
+(* ---- is_subset_of ---- *)
+Lemma ax_mem_iff (x : Q) (a : axis) :
+  ax_mem x a = true <-> exists k, (k < (let '(_, len, _) := a in len))%nat /\ x == ax_point a k.
+Proof.
+  destruct a as [[s len] d]. unfold ax_mem. rewrite existsb_exists. split.
+  - intros [k [Hin Hk]]. apply in_seq in Hin. apply Qeq_bool_iff in Hk. exists k. split; [lia|exact Hk].
+  - intros [k [Hlt Hk]]. exists k. split; [apply in_seq; lia|apply Qeq_bool_iff; exact Hk].
+Qed.
+
+(* if is_subset_of accepts (exact arithmetic), every point of the sub-axis is a point of the axis *)
+Theorem subset_points (rnd : Z) (sub ax : axis) : is_subset_of rnd sub ax = true ->
+  forall k, (k < (let '(_, l1, _) := sub in l1))%nat -> ax_mem (ax_point sub k) ax = true.
+Proof.
+  destruct sub as [[s1 l1] d1], ax as [[s l] d]. unfold is_subset_of. intros H k Hk.
+  apply andb_true_iff in H. destruct H as [H Hmax]. apply andb_true_iff in H. destruct H as [Hstep H].
+  apply andb_true_iff in H. destruct H as [Hstart _].
+  apply Qeq_bool_iff in Hstep. apply ax_mem_iff in Hstart. apply ax_mem_iff in Hmax.
+  destruct Hstart as [a [Ha Hsa]]. destruct Hmax as [b [Hb Hsb]]. unfold ax_max, ax_point in *.
+  apply ax_mem_iff. unfold ax_point.
+  destruct (Qeq_dec d 0) as [Hd0|Hd0].
+  - exists a. split; [exact Ha|]. rewrite <- Hstep, Hsa, Hd0. ring.
+  - (* a + (l1-1) rnd = b *)
+    assert (Hab : (Z.of_nat a + Z.of_nat (l1 - 1) * rnd = Z.of_nat b)%Z).
+    { assert (Hq : (inject_Z (Z.of_nat a + Z.of_nat (l1 - 1) * rnd) - inject_Z (Z.of_nat b)) * d == 0).
+      { rewrite inject_Z_plus, inject_Z_mult. rewrite <- Hstep, Hsa in Hsb. lra. }
+      apply Qmult_integral in Hq. destruct Hq as [Hq|Hq]; [|contradiction].
+      apply inject_Z_injective. lra. }
+    set (c := (Z.of_nat a + Z.of_nat k * rnd)%Z).
+    assert (Hc : (0 <= c < Z.of_nat l)%Z).
+    { unfold c. destruct (Z_le_gt_dec 0 rnd) as [Hr|Hr].
+      - split; [nia|]. assert (Z.of_nat k * rnd <= Z.of_nat (l1 - 1) * rnd)%Z by (apply Z.mul_le_mono_nonneg_r; lia). lia.
+      - split; [|nia]. assert (Z.of_nat (l1 - 1) * rnd <= Z.of_nat k * rnd)%Z by (apply Z.mul_le_mono_nonpos_r; lia). lia. }
+    exists (Z.to_nat c). split; [lia|]. rewrite Z2Nat.id by lia. unfold c. rewrite inject_Z_plus, inject_Z_mult.
+    rewrite <- Hstep, Hsa. ring.
+Qed.
